@@ -37,6 +37,9 @@ type c28Case struct {
 	// after all links have been reported to it (links that are up before pubsub starts)
 	ViaCtl    bool `json:"via_ctl,omitempty"`
 	LateStart int  `json:"late_start,omitempty"`
+	// Ghosts (ViaCtl): links (u,v) that are reported to both controllers before the real ones and reported lost again
+	// after them, before any controller that starts late is running; nothing is ever sent over them
+	Ghosts [][2]int `json:"ghosts,omitempty"`
 }
 
 var c28Channels = []string{"x", "y"}
@@ -91,6 +94,12 @@ func genC28Ctl(t *rapid.T) c28Case {
 		c.LateStart = (1 << c.N) - 1
 	case 1:
 		c.LateStart = rapid.IntRange(0, (1<<c.N)-1).Draw(t, "latestart")
+	}
+	ng := rapid.SampledFrom([]int{0, 1, 1, 2}).Draw(t, "nghosts")
+	for i := 0; i < ng; i++ {
+		u := rapid.IntRange(0, c.N-2).Draw(t, "gu")
+		v := rapid.IntRange(u+1, c.N-1).Draw(t, "gv")
+		c.Ghosts = append(c.Ghosts, [2]int{u, v})
 	}
 	return c
 }
@@ -177,6 +186,20 @@ func checkC28(c c28Case) (o vstat.Outcome) {
 			return
 		}
 	}
+	var loseGhosts []func()
+	if c.ViaCtl {
+		for gi, g := range c.Ghosts {
+			lose, gerr := ghostLink(nodes[g[0]], nodes[g[1]], uint64(900+gi))
+			if gerr != nil {
+				o.V = vstat.Viol("controller-setup", "%v", gerr)
+				return
+			}
+			loseGhosts = append(loseGhosts, lose)
+		}
+		if len(c.Ghosts) > 0 {
+			o.Classes = append(o.Classes, "link-lost-before-pubsub-picked-it-up")
+		}
+	}
 	for i, e := range c.Edges {
 		if adj[e[0]][e[1]] {
 			multi = true
@@ -196,6 +219,9 @@ func checkC28(c c28Case) (o vstat.Outcome) {
 		}
 		dirs = append(dirs, ab, ba)
 		adj[e[0]][e[1]], adj[e[1]][e[0]] = true, true
+	}
+	for _, lose := range loseGhosts {
+		lose()
 	}
 	if c.ViaCtl {
 		o.Classes = append(o.Classes, "through-the-pubsub-controller")
@@ -473,7 +499,7 @@ var specC28 = vstat.Spec[c28Case]{
 
 var specC28Ctl = vstat.Spec[c28Case]{
 	Property: "C28",
-	Rule: "the TestC28 networks with every node's FloodSub built and fed by the real pubsub controller: the controllers are told about the links (fake mounted links), the side with the lower peer id opens the pubsub stream and the other controller's stream handler gets the far end; in two thirds of the cases some or all controllers start running only after their links were reported; " +
+	Rule: "the TestC28 networks with every node's FloodSub built and fed by the real pubsub controller: the controllers are told about the links (fake mounted links), the side with the lower peer id opens the pubsub stream and the other controller's stream handler gets the far end; in two thirds of the cases some or all controllers start running only after their links were reported; up to two further links are reported before the real ones and lost again before the late controllers run; " +
 		"oracle and non-trivial rule as TestC28",
 	Assumptions: specC28.Assumptions,
 	Gen:         genC28Ctl,
